@@ -143,6 +143,11 @@ var subE2E = ev.Register("range-e2e",
 		default:
 			return ev.Failf(fmt.Sprintf("range-e2e.status-%d", resp.Status), "Range %q If-Range %q: unexpected status %d (origin answered every request successfully): %s", c.Range, ifRangeValues[c.IfRange], resp.Status, brief(resp))
 		}
+		// the stored representation must be untouched by the Range exchange
+		after, aerr := env.Via(c.Transport, px.Req{Method: "GET", Host: org.Addr(), Target: "/r", ReqID: "after"})
+		if aerr != nil || after.ReadErr != nil || after.Status != 200 || !bytes.Equal(after.Body, full) || after.Header.Get("Content-Range") != "" {
+			return ev.Failf("range-e2e.plain-get-after-range-damaged", "Range %q: the plain GET that followed got %s (err %v)", c.Range, brief(after), aerr)
+		}
 		return nil
 	})
 
